@@ -223,7 +223,7 @@ def execute(case):
         return _out(case, probes, ('unexpected_exception', 'preparing %r raised %s: %s' % (hint, type(e).__name__, str(e)[:200]), 'prepare'))
     viol = None
     for draw in case['draws']:
-        for ep in entry.ENTRY_POINTS:
+        for ep in prep.entry_points():
             x, chk = build(case)
             out = prep.eval(ep, x, draw)
             verdict = entry.classify(out, prep.conf)
